@@ -2,6 +2,7 @@ package main
 
 import (
 	"fmt"
+	"regexp"
 	"sort"
 	"go/ast"
 	"go/constant"
@@ -27,6 +28,9 @@ type Env struct {
 	lets   map[string]ast.Expr
 	depth  int
 	recs   map[string]string // recfun name -> SMT function symbol
+	firstLevel bool // all0: assumed quantifier that fires on first-level triggers only
+	goal     bool // polarity: true = this subformula has to be proved, false = it may be assumed
+	underAll bool // inside the body of an assumed all(...)
 }
 
 func (fx *FuncCtx) clauseEnv(st, old *State, rets []*Val) *Env {
@@ -69,6 +73,12 @@ func (e *Env) errorf(format string, a ...interface{}) *Val {
 	return &Val{T: "false", Ty: types.Typ[types.Bool], Bad: msg}
 }
 
+// evalGoal evaluates a clause that is about to be proved (not assumed).
+func (fx *FuncCtx) evalGoal(c *Clause, env *Env) string {
+	env.goal = true
+	return fx.evalClause(c, env)
+}
+
 // evalClause evaluates a boolean clause to an SMT term.
 func (fx *FuncCtx) evalClause(c *Clause, env *Env) string {
 	if c.Expr == nil {
@@ -93,6 +103,29 @@ func (fx *FuncCtx) evalClause(c *Clause, env *Env) string {
 var boolT = types.Typ[types.Bool]
 var intT = types.Typ[types.Int]
 var strT = types.Typ[types.String]
+
+func (e *Env) flip() *Env {
+	n := *e
+	n.goal = !e.goal
+	return &n
+}
+
+// containsQuant reports whether a clause expression contains a bounded quantifier.
+func containsQuant(x ast.Expr) bool {
+	found := false
+	ast.Inspect(x, func(n ast.Node) bool {
+		if c, ok := n.(*ast.CallExpr); ok {
+			if id, ok := c.Fun.(*ast.Ident); ok && (id.Name == "ex" || id.Name == "all") {
+				found = true
+			}
+			if id, ok := c.Fun.(*ast.Ident); ok && !found {
+				_ = id
+			}
+		}
+		return !found
+	})
+	return found
+}
 
 func (e *Env) with(st *State) *Env {
 	n := *e
@@ -153,7 +186,11 @@ func (e *Env) eval(x ast.Expr) *Val {
 		p := e.eval(x.X)
 		return fx.loadQuiet(e.st, fx.asAddr(p))
 	case *ast.UnaryExpr:
-		v := e.eval(x.X)
+		ev := e
+		if x.Op == token.NOT {
+			ev = e.flip()
+		}
+		v := ev.eval(x.X)
 		switch x.Op {
 		case token.NOT:
 			return &Val{T: not(v.T), Ty: boolT}
@@ -423,6 +460,13 @@ func (e *Env) binary(x *ast.BinaryExpr) *Val {
 	case token.LOR:
 		a, b := e.eval(x.X), e.eval(x.Y)
 		return &Val{T: or(a.T, b.T), Ty: boolT}
+	case token.EQL:
+		if containsQuant(x.X) || containsQuant(x.Y) {
+			// boolean equivalence over a quantified side: both directions, each side with the polarity it has there
+			a1, b1 := e.flip().eval(x.X), e.eval(x.Y)
+			b2, a2 := e.flip().eval(x.Y), e.eval(x.X)
+			return &Val{T: and(imp(a1.T, b1.T), imp(b2.T, a2.T)), Ty: boolT}
+		}
 	}
 	a, b := e.eval(x.X), e.eval(x.Y)
 	if a.T == "" || b.T == "" {
@@ -600,20 +644,69 @@ func (e *Env) quant(q string, args []ast.Expr) *Val {
 		ne.bound[k] = true
 	}
 	ne.bound[id.Name] = true
-	body := ne.eval(args[3])
 	fx := e.fx
 	fx.u.uf("trg", "(declare-fun trg (Int) Bool)")
+	fx.u.uf("trg1", "(declare-fun trg1 (Int) Bool)")
+	fx.u.trgAxiom = true
+	// Two trigger levels keep forall-exists chains finite: seeds, goal skolems and
+	// top-level witnesses are trg; witnesses produced under a forall are only trg1;
+	// quantifiers that produce witnesses fire on trg only, flat ones also on trg1.
+	marker := "trg"
+	switch {
+	case q == "all" && e.goal: // to prove: the skolem constant may instantiate everything
+		marker = "trg"
+	case q == "all" && containsEx(args[3]): // assumed, produces witnesses: fires on first-level terms only
+		marker = "trg"
+	case q == "all" && e.firstLevel:
+		marker = "trg"
+	case q == "all": // assumed, flat: fires on witnesses too
+		marker = "trg1"
+	case q == "ex" && e.goal: // to prove: any known term may serve as witness
+		marker = "trg1"
+	case q == "ex" && e.underAll: // assumed under a forall: second-level witness
+		marker = "trg1"
+	}
+	if q == "all" && !e.goal {
+		ne.underAll = true
+	}
+	body := ne.eval(args[3])
 	if !strings.Contains(lo.T, "!") {
 		fx.seed(lo.T)
 	}
 	if !strings.Contains(hi.T, "!") {
 		fx.seed("(- " + hi.T + " 1)")
 	}
-	rng := "(and (<= " + lo.T + " " + bv + ") (< " + bv + " " + hi.T + ") (trg " + bv + "))"
-	if q == "all" {
-		return &Val{T: "(forall ((" + bv + " Int)) (! " + imp(rng, body.T) + " :pattern ((trg " + bv + "))))", Ty: boolT}
+	extra := ""
+	if q == "all" && e.goal {
+		// the skolem constant's neighbours (j+1, j-1, ...) used as indices are instantiation points too
+		seen := map[string]bool{}
+		for _, m := range regexp.MustCompile(`\((\+|-) `+regexp.QuoteMeta(bv)+` [0-9]+\)`).FindAllString(body.T, -1) {
+			if !seen[m] {
+				seen[m] = true
+				extra += " (trg " + m + ")"
+			}
+		}
 	}
-	return &Val{T: "(exists ((" + bv + " Int)) (! " + and(rng, body.T) + " :pattern ((trg " + bv + "))))", Ty: boolT}
+	rng := "(and (<= " + lo.T + " " + bv + ") (< " + bv + " " + hi.T + ") (" + marker + " " + bv + ")" + extra + ")"
+	if q == "all" {
+		return &Val{T: "(forall ((" + bv + " Int)) (! " + imp(rng, body.T) + " :pattern ((" + marker + " " + bv + ")) :qid q_" + sanitize(bv) + "))", Ty: boolT}
+	}
+	// written as a negated universal so that the trigger survives whichever polarity the solver sees
+	return &Val{T: "(not (forall ((" + bv + " Int)) (! (not " + and(rng, body.T) + ") :pattern ((trg1 " + bv + ")) :qid q_" + sanitize(bv) + ")))", Ty: boolT}
+}
+
+// containsEx reports whether a clause expression contains an existential quantifier.
+func containsEx(x ast.Expr) bool {
+	found := false
+	ast.Inspect(x, func(n ast.Node) bool {
+		if c, ok := n.(*ast.CallExpr); ok {
+			if id, ok := c.Fun.(*ast.Ident); ok && (id.Name == "ex" || id.Name == "exstr") {
+				found = true
+			}
+		}
+		return !found
+	})
+	return found
 }
 
 func (e *Env) call(x *ast.CallExpr) *Val {
@@ -630,14 +723,26 @@ func (e *Env) call(x *ast.CallExpr) *Val {
 	argv := func(i int) *Val { return e.eval(x.Args[i]) }
 	switch name {
 	case "imp":
-		return &Val{T: imp(argv(0).T, argv(1).T), Ty: boolT}
+		a := e.flip().eval(x.Args[0])
+		return &Val{T: imp(a.T, argv(1).T), Ty: boolT}
 	case "iff":
+		if containsQuant(x.Args[0]) || containsQuant(x.Args[1]) {
+			// both directions, each side with the polarity it has there
+			a1, b1 := e.flip().eval(x.Args[0]), e.eval(x.Args[1])
+			b2, a2 := e.flip().eval(x.Args[1]), e.eval(x.Args[0])
+			return &Val{T: and(imp(a1.T, b1.T), imp(b2.T, a2.T)), Ty: boolT}
+		}
 		return &Val{T: "(= " + argv(0).T + " " + argv(1).T + ")", Ty: boolT}
 	case "ite":
 		a, b := argv(1), argv(2)
 		return &Val{T: ite(argv(0).T, a.T, b.T), Ty: pickTy(a, b)}
 	case "all", "ex":
 		return e.quant(name, x.Args)
+	case "all0":
+		// like all, but as an assumption it is instantiated at first-level terms only
+		ne := *e
+		ne.firstLevel = true
+		return ne.quant("all", x.Args)
 	case "allref":
 		// allref(x, body): quantification over allocated references
 		id := x.Args[0].(*ast.Ident)
@@ -670,9 +775,9 @@ func (e *Env) call(x *ast.CallExpr) *Val {
 		}
 		body := ne.eval(x.Args[1])
 		if trig := e.guardTrigger(ne, x.Args[1], bv); trig != "" {
-			return &Val{T: "(forall ((" + bv + " If)) (! " + body.T + " :pattern (" + trig + ")))", Ty: boolT}
+			return &Val{T: "(forall ((" + bv + " If)) (! " + body.T + " :pattern (" + trig + ") :qid qif_" + sanitize(bv) + "))", Ty: boolT}
 		}
-		return &Val{T: "(forall ((" + bv + " If)) " + body.T + ")", Ty: boolT}
+		return &Val{T: "(forall ((" + bv + " If)) (! " + body.T + " :qid qif_" + sanitize(bv) + "))", Ty: boolT}
 	case "allif2":
 		// allif2(k, j, imp(guard, body)): one two-variable quantifier whose trigger is the pair of membership guards
 		id1 := x.Args[0].(*ast.Ident)
@@ -709,7 +814,7 @@ func (e *Env) call(x *ast.CallExpr) *Val {
 			}
 		}
 		if pat != "" {
-			return &Val{T: "(forall ((" + bv1 + " If) (" + bv2 + " If)) (! " + body.T + pat + "))", Ty: boolT}
+			return &Val{T: "(forall ((" + bv1 + " If) (" + bv2 + " If)) (! " + body.T + pat + " :qid qif2_" + sanitize(bv1) + "))", Ty: boolT}
 		}
 		return &Val{T: "(forall ((" + bv1 + " If) (" + bv2 + " If)) " + body.T + ")", Ty: boolT}
 	case "unchanged":
@@ -722,6 +827,12 @@ func (e *Env) call(x *ast.CallExpr) *Val {
 			t := a.T
 			if t == "" {
 				t, _ = fx.ptrTerm(e.st, a)
+			}
+			// an excepted pointer to a struct only exempts that struct's field heaps
+			if a.Ty != nil {
+				if p, ok := a.Ty.Underlying().(*types.Pointer); ok && isStruct(p.Elem()) {
+					t = compName(p.Elem(), nil) + "$|" + t
+				}
 			}
 			except = append(except, t)
 		}
@@ -741,7 +852,7 @@ func (e *Env) call(x *ast.CallExpr) *Val {
 			q = "exists"
 		}
 		if trig := e.guardTrigger(ne, x.Args[1], bv); trig != "" && q == "forall" {
-			return &Val{T: "(forall ((" + bv + " " + fx.u.strSort() + ")) (! " + body.T + " :pattern (" + trig + ")))", Ty: boolT}
+			return &Val{T: "(forall ((" + bv + " " + fx.u.strSort() + ")) (! " + body.T + " :pattern (" + trig + ") :qid qstr_" + sanitize(bv) + "))", Ty: boolT}
 		}
 		return &Val{T: "(" + q + " ((" + bv + " " + fx.u.strSort() + ")) " + body.T + ")", Ty: boolT}
 	case "old":
@@ -756,6 +867,11 @@ func (e *Env) call(x *ast.CallExpr) *Val {
 		}
 		switch vt := v.Ty.Underlying().(type) {
 		case *types.Slice:
+			if !strings.Contains(v.T, "!") && !fx.wfSeen[v.T] {
+				// typing invariant of the heap: every slice value is well-formed
+				fx.wfSeen[v.T] = true
+				fx.emit("(assert (and (<= 0 (sl_len " + v.T + ")) (<= (sl_len " + v.T + ") (sl_cap " + v.T + ")) (<= 0 (sl_off " + v.T + "))))")
+			}
 			return &Val{T: "(sl_len " + v.T + ")", Ty: intT}
 		case *types.Basic:
 			return &Val{T: fx.u.slen(v.T), Ty: intT}
@@ -866,6 +982,12 @@ func (e *Env) call(x *ast.CallExpr) *Val {
 			return v.Tup[ri]
 		}
 		return v
+	case "key_lt":
+		// strict order of skiplist keys: the order of the strings they carry
+		a, b := argv(0), argv(1)
+		sa := fx.unboxAs(e.st, a.T, strT)
+		sb := fx.unboxAs(e.st, b.T, strT)
+		return &Val{T: fx.u.slt(sa.T, sb.T), Ty: boolT}
 	case "upd":
 		a, k, v := argv(0), argv(1), argv(2)
 		kt, vt := k.T, v.T
@@ -970,10 +1092,18 @@ func (e *Env) call(x *ast.CallExpr) *Val {
 		if len(x.Args) < dims {
 			return &Val{T: t, Ty: nil}
 		}
-		return &Val{T: t, Ty: fx.eng.ghostType(g)}
+		gt := fx.eng.ghostType(g)
+		if gt == intT {
+			fx.seed(t)
+		}
+		return &Val{T: t, Ty: gt}
 	}
 	// uninterpreted spec symbols declared with `uf`
-	if u, ok := fx.eng.specUFs[name]; ok {
+	ufName := name
+	if i := strings.LastIndex(ufName, "."); i >= 0 {
+		ufName = ufName[i+1:]
+	}
+	if u, ok := fx.eng.specUFs[ufName]; ok {
 		parts := []string{u.name}
 		for i := range x.Args {
 			parts = append(parts, argv(i).T)
@@ -1138,6 +1268,12 @@ func (fx *FuncCtx) unchangedTerm(now, pre *State, except ...string) string {
 		case "Int":
 			conds := []string{"(< 0 x!u)", "(<= x!u " + pre.Alloc + ")"}
 			for _, ex := range except {
+				if i := strings.Index(ex, "|"); i >= 0 {
+					if !strings.HasPrefix(c, ex[:i]) {
+						continue
+					}
+					ex = ex[i+1:]
+				}
 				conds = append(conds, "(not (= x!u "+ex+"))")
 			}
 			cs = append(cs, "(forall ((x!u Int)) (=> "+and(conds...)+" (= (select "+t+" x!u) (select "+was+" x!u))))")
